@@ -51,18 +51,18 @@ type Result struct {
 }
 
 type Pipeline struct {
-	Prop     string
-	Seed     int64
-	Tier     string
-	Driver   string
-	OutDir   string
-	Corpus   []string // dirs with *.case files, run first
-	Opts     GenOpts
-	NCases   int
-	Workers  int
-	Search   bool // monitors only, no model comparison
-	Repeat   int  // C11: re-execute every case this many times
-	Fixed    []Case // externally supplied cases (C19: shipped schemas)
+	Prop    string
+	Seed    int64
+	Tier    string
+	Driver  string
+	OutDir  string
+	Corpus  []string // dirs with *.case files, run first
+	Opts    GenOpts
+	NCases  int
+	Workers int
+	Search  bool   // monitors only, no model comparison
+	Repeat  int    // C11: re-execute every case this many times
+	Fixed   []Case // externally supplied cases (C19: shipped schemas)
 }
 
 func LoadCase(path string) (Case, error) {
@@ -97,10 +97,10 @@ func saveCase(dir, name string, c Case, header ...string) string {
 }
 
 type caseRun struct {
-	c    Case
-	obs  []OpObs
-	sch  *Schema
-	err  error
+	c   Case
+	obs []OpObs
+	sch *Schema
+	err error
 }
 
 func runAll(cases []Case, workers int) []caseRun {
